@@ -173,11 +173,17 @@ type solverSpec struct {
 	args func(file string, timeoutS int) []string
 }
 
+var solverSeed = 0
+
 var solvers = []solverSpec{
-	{"z3", func(f string, t int) []string { return []string{"z3", fmt.Sprintf("-T:%d", t), "smt.random_seed=0", f} }},
-	{"z3-new", func(f string, t int) []string { return []string{"z3-new", fmt.Sprintf("-T:%d", t), "smt.random_seed=0", f} }},
+	{"z3", func(f string, t int) []string {
+		return []string{"z3", fmt.Sprintf("-T:%d", t), fmt.Sprintf("smt.random_seed=%d", solverSeed), f}
+	}},
+	{"z3-new", func(f string, t int) []string {
+		return []string{"z3-new", fmt.Sprintf("-T:%d", t), fmt.Sprintf("smt.random_seed=%d", solverSeed), f}
+	}},
 	{"cvc5", func(f string, t int) []string {
-		return []string{"cvc5", fmt.Sprintf("--tlimit=%d", t*1000), "--seed=0", "--full-saturate-quant", f}
+		return []string{"cvc5", fmt.Sprintf("--tlimit=%d", t*1000), fmt.Sprintf("--seed=%d", solverSeed), "--full-saturate-quant", f}
 	}},
 }
 
@@ -301,6 +307,26 @@ func dischargeAll(vcs []*VC, dir string, timeoutS int, workers int) {
 	}
 	close(ch)
 	wg.Wait()
+	// Second chance, one at a time and with other seeds, for obligations that were not discharged:
+	// a proof found under any seed is a proof; this only removes alarms caused by solver scheduling.
+	for _, vc := range vcs {
+		if vc.Cover || vc.Known != "" || vc.Result == "unsat" || vc.Result == "vacuous" {
+			continue
+		}
+		first := vc.Result
+		for seed := 1; seed <= 2 && vc.Result != "unsat"; seed++ {
+			solverSeed = seed
+			keepModel := vc.ModelOut
+			discharge(vc, dir, timeoutS, true)
+			if vc.ModelOut == "" {
+				vc.ModelOut = keepModel
+			}
+			if vc.Result == "unsat" {
+				vc.Backend += fmt.Sprintf(" (retry seed %d after %s)", seed, first)
+			}
+		}
+		solverSeed = 0
+	}
 }
 
 // cover: the assumptions must NOT be refutable within a small budget.
